@@ -26,4 +26,9 @@ func init() {
 	for _, p := range []string{"C03", "C04", "C05", "C11", "C17", "C19"} {
 		assumptions[p] = hist
 	}
+	// what the harness holds constant is where it is blind (learnt from seeded waves 8 and 9)
+	constant := "held constant in every run (not explored): operating system linux/amd64 and its path rules; the user is root (permission bits never deny); locale and terminal (no TTY on stdin/stdout); no symbolic links; the editor / file-explorer / version-check commands are never launched; one klog process at a time except for the single edit by somebody else during `pause`; config keys other than those listed in the generators; the zone database is the one embedded in the harness"
+	for _, p := range []string{"C03", "C04", "C05", "C06", "C07", "C11", "C17", "C19"} {
+		assumptions[p] = append(append([]string{}, assumptions[p]...), constant)
+	}
 }
